@@ -293,9 +293,16 @@ func (c *solverCase) runFloat(rep *vhu.Report, seed uint64, round int, acts []ne
 		assign[id] = t
 		return t, true
 	}
+	// "all weights": dyadic scales (exactly representable whatever the precision) and scales that fill the whole float64
+	// mantissa (an implementation that keeps weights in less than double precision differs beyond the summation-order tolerance)
 	wscale, iscale := 1.0, 1.0
-	if round%2 == 1 {
+	switch (seed + uint64(round)) % 4 {
+	case 1:
 		wscale, iscale = 0.25, 0.5
+	case 2:
+		wscale, iscale = 0.1, 0.37
+	case 3:
+		wscale, iscale = math.Pi/7, 1.0/3
 	}
 	inp := floats(c.Inp, iscale)
 	// fill `assign`
